@@ -2,12 +2,15 @@ pub mod c01;
 pub mod c02;
 pub mod c03;
 pub mod c04;
+pub mod c05;
 pub mod c06;
 pub mod c07;
 pub mod c08;
 pub mod c09;
 pub mod c10;
+pub mod c11;
 pub mod c13;
+pub mod c16;
 
 use crate::gen::Excl;
 use crate::report::{self, RunCtx};
@@ -22,6 +25,9 @@ pub fn run(ctx: &mut RunCtx) -> i32 {
         "C03" => c03::run(ctx),
         "C07" => c07::run(ctx),
         "C10" => c10::run(ctx),
+        "C16" => c16::run(ctx),
+        "C05" => c05::run(ctx),
+        "C11" => c11::run(ctx),
         "C08" => c08::run(ctx),
         "C06" => c06::run(ctx),
         "C09" => c09::run(ctx),
@@ -42,6 +48,10 @@ pub fn replay_fails(v: &Value) -> Option<(bool, String)> {
         "c04" => c04::replay_case(v),
         "c07" => c07::replay_case(v),
         "c10" => c10::replay_case(v),
+        "c16" => c16::replay_case(v),
+        "c05" => c05::replay_case(v),
+        "c11" => c11::replay_case(v),
+        "c11-text" => c11::replay_text(v),
         "c08" => c08::replay_case(v),
         "c06" => c06::replay_case(v),
         "c09" => c09::replay_case(v),
